@@ -104,6 +104,10 @@ class C16(Prop):
         for _ in range(n):
             t = gen.freeze(gen.table(rng, maxrows=4, ncols=2, alphabet=[0, 1, 'a']))
             yield Case('cv_run', (rng.choice([None, None, 0, 1, 2, 3, 5]), t, _c01.random_ops(rng)))
+        # clearcache() between passes (after a complete pass, after a partial one, twice in a row)
+        for lim in (None, 0, 1, 3, 10):
+            for hist in (('f', 'c', 'f'), (2, 'c', 'f'), ('f', 'c', 3, 'f'), ('c', 'f', 'c', 'c', 'f'), ('f', 'f', 'c', 1, 'c', 'f')):
+                yield Case('cache_clear', (lim, hist, (('k', 'v'), (1, 'a'), (2, 'b'), (3, 'c'), (4, 'd'))))
         # directed: a consumer peeks, another makes a full pass, the first carries on, then fresh passes; staggered starts
         five = (('k', 'v'), (1, 'a'), (2, 'b'), (3, 'c'), (4, 'd'))
         peek = ((0,), (1, 0), (1, 0), (0,)) + ((1, 1),) * 6 + ((1, 0),) * 5 + ((0,),) + ((1, 2),) * 6 + ((0,),) + ((1, 3),) * 6
@@ -127,6 +131,8 @@ class C16(Prop):
 
     # ---- expansion to the model's input ---------------------------------------------------------------------------------
     def expand(self, case):
+        if case.op == 'cache_clear':
+            return Case('const_true', ('cache_clear',) + tuple(case.arg), dict(case.meta, orig='cache_clear'))
         if case.op != 'tee_hl':
             return case
         fmt, params, t, aslist, k = case.arg
@@ -181,9 +187,40 @@ class C16(Prop):
         return tdv, trv
 
     # ---- implementation -------------------------------------------------------------------------------------------------
+    def _cache_clear(self, n, hist, t):
+        """cache(t, n) stays transparent across clearcache(): every full pass yields the table, whatever was read, cached or
+        cleared before (hist: 'f' full pass, a number k = read k rows and stop, 'c' = clearcache())"""
+        import petl as etl
+        want = [tuple(r) for r in t]
+        from petl.util.materialise import cache
+        v = cache([list(r) for r in t], n=n)
+        for h in hist:
+            if h == 'c':
+                v.clearcache()
+            elif h == 'f':
+                if [tuple(r) for r in v] != want:
+                    return False
+            else:
+                it = iter(v)
+                got = []
+                for _ in range(h):
+                    try:
+                        got.append(tuple(next(it)))
+                    except StopIteration:
+                        break
+                if got != want[:len(got)]:
+                    return False
+                del it
+        return [tuple(r) for r in v] == want
+
     def impl(self, case):
         if case.op == 'cv_run':
             return c01().impl(case)
+        if case.op == 'const_true':
+            try:
+                return codec.t_bool(self._cache_clear(*case.arg[1:]))
+            except Exception as e:   # noqa
+                return obs_exc(e)
         import petl as etl
         try:
             fmt, params, t, aslist, k = case.meta['orig']
@@ -330,6 +367,8 @@ class C16(Prop):
 
     # ---- the property on the implementation's own output ------------------------------------------------------------------
     def spec(self, case, impl_obs, model_obs):
+        if case.op == 'const_true':
+            return impl_obs == codec.t_bool(True)
         if case.op == 'cv_run':
             return c01().spec(case, impl_obs, model_obs)
         v = getattr(self, '_verdicts', {}).get(case.key())
@@ -348,6 +387,10 @@ class C16(Prop):
 
     def valid(self, case):
         try:
+            if case.op in ('const_true', 'cache_clear'):
+                a = case.arg[1:] if case.op == 'const_true' else case.arg
+                return ((a[0] is None or (isinstance(a[0], int) and a[0] >= 0))
+                        and all(h in ('c', 'f') or (isinstance(h, int) and 0 <= h <= 50) for h in a[1]) and len(a[2]) >= 1)
             if case.op == 'cv_run':
                 return c01().valid(case)
             if case.op == 'tee':
@@ -370,6 +413,8 @@ class C16(Prop):
 
     def nontrivial(self, case):
         try:
+            if case.op in ('const_true', 'cache_clear'):
+                return len(case.arg[-1]) >= 3
             if case.op == 'cv_run':
                 return len(case.arg[1]) >= 3
             src = case.meta['orig'][2] if case.op == 'tee' else case.arg[2]
